@@ -105,6 +105,16 @@ fn b(x: int) { println("b", x); }
 		Judge: spawnJudge("m", "a 1", "b 2"),
 	},
 	{
+		Name: "several-arguments-of-different-types",
+		Source: `fn main() {
+    spawn three(1, "w", 10);
+    spawn three(2, "v", 20);
+}
+fn three(a: int, b: str, c: int) { println("three", a, b, c); }
+`,
+		Judge: spawnJudge("three 1 w 10", "three 2 v 20"),
+	},
+	{
 		Name: "spawn-time-argument",
 		Source: `fn main() {
     let x = 1;
